@@ -244,8 +244,14 @@ func aggDump(rec *intermediate.AggregationFlowRecord) string {
 		}
 		return "0"
 	}
-	return fmt.Sprintf("%d/%s/%s/%s/%d/%s/%s/%s/%s/%s/%s/%s/%s/%s/%s/%d/%s", ft.GetUnsigned8Value(), strings.Join(corr, ","),
-		u32of(r, "flowStartSeconds"), u32of(r, "flowEndSeconds"), reason.GetUnsigned8Value(), tcpTok,
+	u8tok := func(e entities.InfoElementWithValue) string {
+		if e == nil {
+			return aggAbsent
+		}
+		return strconv.Itoa(int(e.GetUnsigned8Value()))
+	}
+	return fmt.Sprintf("%s/%s/%s/%s/%s/%s/%s/%s/%s/%s/%s/%s/%s/%s/%s/%d/%s", u8tok(ft), strings.Join(corr, ","),
+		u32of(r, "flowStartSeconds"), u32of(r, "flowEndSeconds"), u8tok(reason), tcpTok,
 		u64s(r, statsElems), u64s(r, withSuffix(statsElems, "FromSourceNode")), u64s(r, withSuffix(statsElems, "FromDestinationNode")),
 		u32of(r, "flowEndSecondsFromSourceNode"), u32of(r, "flowEndSecondsFromDestinationNode"),
 		u64s(r, []string{"throughput", "reverseThroughput"}), u64s(r, []string{"throughputFromSourceNode", "reverseThroughputFromSourceNode"}),
@@ -402,6 +408,17 @@ func engAgg(a []string) string {
 	case "rec":
 		// optional trailing p<n>: the record lists its elements in another order (exporters need not agree on
 		// the order of the fields of their templates; the aggregation must find fields by name)
+		// optional last token omit=<name,name,...>: the record's template lacks these elements (any element the engine
+		// adds: key, flow type, times, end reason, tcpState, counters, correlate fields). Outside the model - used by
+		// crash-only sessions: whatever the aggregation answers, it must answer.
+		var omit map[string]bool
+		if n := len(a); n >= 10 && strings.HasPrefix(a[n-1], "omit=") {
+			omit = map[string]bool{}
+			for _, nm := range strings.Split(a[n-1][5:], ",") {
+				omit[nm] = true
+			}
+			a = a[:n-1]
+		}
 		perm := int64(-1)
 		if len(a) == 10 && strings.HasPrefix(a[9], "p") {
 			n, err := strconv.ParseInt(a[9][1:], 10, 64)
@@ -427,6 +444,20 @@ func engAgg(a []string) string {
 		}
 		if err != nil {
 			return "bad-op"
+		}
+		if omit != nil {
+			var es []entities.InfoElementWithValue
+			for _, e := range rec.GetOrderedElementList() {
+				if !omit[e.GetName()] {
+					es = append(es, e)
+				}
+			}
+			s2 := entities.NewSet(true)
+			s2.PrepareSet(entities.Data, 256)
+			if e2 := s2.AddRecordV2(es, 256); e2 != nil {
+				return "bad-op"
+			}
+			rec = s2.GetRecords()[0]
 		}
 		set := entities.NewSet(true)
 		set.PrepareSet(entities.Data, 256)
